@@ -6,7 +6,8 @@ import random
 from harness import tlc, obs
 from harness.tlc import to_atoms, from_atoms, tla_seq as S
 
-SNIPS = {1: '\\n{q}', 2: '\\begin{w}u\\end{w}', 3: '{g}', 4: '$m$', 5: '\\a{x}', 6: '\\n{\\q{1}}'}
+SNIPS = {1: '\\n{q}', 2: '\\begin{w}u\\end{w}', 3: '{g}', 4: '$m$', 5: '\\a{x}', 6: '\\n{\\q{1}}', 7: '\\n{q}'}
+DONOR7 = '\\begin{itemize}\\item \\w{\\n{q}}\\end{itemize}'      # snippet 7 is copied out of an argument inside an item of this document
 OBS_NAMES = ['a', 'n', 'q', 'w', 'zz', 'item', 'e', 'kk*', '\\begin{e}', '\\begin{zz}', '\\end{zz}', '\\end{e}', '\\begin{itemize}']
 ALL_KINDS = ['args_swap', 'args_del', 'delete', 'replace_with', 'replace', 'remove', 'insert', 'append', 'rename', 'set_string', 'args_append', 'args_pop',
              'args_reverse', 'args_slice', 'args_insert', 'args_remove', 'args_clear']
@@ -82,7 +83,10 @@ def material(ms):
         if m['m'] == 'str':
             out.append(from_atoms(m['s']))
         else:
-            out.append(TexSoup(SNIPS[m['k']]).children[0].copy())
+            if m['k'] == 7:
+                out.append(TexSoup(DONOR7).find('n').copy())
+            else:
+                out.append(TexSoup(SNIPS[m['k']]).children[0].copy())
     return out
 
 
@@ -186,6 +190,7 @@ def replay_history(rec):
     from TexSoup import TexSoup
     src = from_atoms(rec['i'])
     soup = TexSoup(src)
+    observe(soup)        # look at every view BEFORE the first edit too (anything the library caches is then stale-able)
     for n, ev in enumerate(rec['h']):
         err = apply_op(soup, ev['op'])
         if err:
@@ -269,9 +274,10 @@ def random_history(rng, src, length, kinds):
     from TexSoup import TexSoup
     from TexSoup.data import TexNode, TexCmd, TexNamedEnv, TexEnv, TexGroup, TexText
     soup = TexSoup(src)
+    observe(soup)
     h = []
     mats = [[{'m': 'str', 's': to_atoms('X')}], [{'m': 'node', 'k': 1}], [{'m': 'node', 'k': 5}, {'m': 'str', 's': to_atoms('Y')}],
-            [{'m': 'node', 'k': 6}], [{'m': 'str', 's': to_atoms('p q')}, {'m': 'node', 'k': 2}, {'m': 'node', 'k': 3}]]
+            [{'m': 'node', 'k': 6}], [{'m': 'str', 's': to_atoms('p q')}, {'m': 'node', 'k': 2}, {'m': 'node', 'k': 3}], [{'m': 'node', 'k': 7}]]
     for _ in range(length):
         nodes = [n for n in soup.descendants if isinstance(n, TexNode)]
         k = rng.choice(kinds)
@@ -294,8 +300,8 @@ def random_history(rng, src, length, kinds):
                 op['nm'] = to_atoms(rng.choice(['zz', 'kk*']))
             elif k == 'set_string':
                 ok_cmd = isinstance(e, TexCmd) and len(e.args) == 1 and isinstance(e.args[0], TexGroup)
-                ok_env = isinstance(e, TexEnv) and not e.args and len(e._contents) == 1 and isinstance(e._contents[0], (TexText, str)) \
-                    and not str(e._contents[0]).isspace()
+                vis = [c for c in e._contents if not (isinstance(c, (TexText, str)) and str(c).isspace())]
+                ok_env = isinstance(e, TexEnv) and not e.args and len(vis) == 1 and isinstance(vis[0], (TexText, str))
                 if not (ok_cmd or ok_env):
                     continue
                 op['s'] = to_atoms(rng.choice(['S t', 'u']))
@@ -373,7 +379,7 @@ def validate(chk, traces, clause, timeout=3000):
             f.write(json.dumps({'i': t['i'], 'h': [{'op': e['op'], 't': e['t'], 'cnt': e['cnt'], 'tv': e['tv'], 'ds': e['ds']} for e in t['h']]}) + '\n')
     defs = ['MCSrc == {}', 'MCKinds == {%s}' % ', '.join(tlc.tla_str(k) for k in ALL_KINDS),
             'MCNames == {%s, %s}' % (S('zz'), S('kk*')), 'MCStrs == {%s, %s}' % (S('S t'), S('u')),
-            'MCMat == {%s}' % ', '.join(mat_tla(m) for m in (('X',), (1,), (5, 'Y'), (6,), ('p q', 2, 3)))]
+            'MCMat == {%s}' % ', '.join(mat_tla(m) for m in (('X',), (1,), (5, 'Y'), (6,), ('p q', 2, 3), (7,)))]
     cfg = ('SPECIFICATION TSpec\nCONSTANTS\n ESources <- MCSrc\n MaxEdits = 1000\n OpKinds <- MCKinds\n NewNames <- MCNames\n'
            ' NewStrings <- MCStrs\n Material <- MCMat\n TextTargets = TRUE\n RenameItems = TRUE\nINVARIANT Verdict\nCHECK_DEADLOCK FALSE\n')
     tlc.write_mc(d, 'MCET', 'EditsTrace', defs, cfg)
